@@ -36,6 +36,16 @@ func init() {
 			"\t\t\tif i < len(m.destHandlers) {\n\t\t\t\ttoClose = append(toClose, m.destHandlers[i])\n\t\t\t}\n", "", "C39.reload.replaced_closed"},
 		Mutant{"C39", "removed-tail-off-by-one", "internal/forward/manager.go",
 			"for i := len(forward); i < len(m.destHandlers); i++ {", "for i := len(forward) + 1; i < len(m.destHandlers); i++ {", "C39.reload.removed_closed"},
+		// the slice spelling of the same queueing, broken
+		Mutant{"C39", "removed-tail-slice-off-by-one", "internal/forward/manager.go",
+			"\tfor i := len(forward); i < len(m.destHandlers); i++ {\n\t\ttoClose = append(toClose, m.destHandlers[i])\n\t}\n",
+			"\tif len(m.destHandlers) > len(forward) {\n\t\ttoClose = append(toClose, m.destHandlers[len(forward)+1:]...)\n\t}\n", "C39.reload.removed_closed"},
+		Mutant{"C39", "removed-tail-slice-guard-too-strict", "internal/forward/manager.go",
+			"\tfor i := len(forward); i < len(m.destHandlers); i++ {\n\t\ttoClose = append(toClose, m.destHandlers[i])\n\t}\n",
+			"\tif len(m.destHandlers) > len(forward)+1 {\n\t\ttoClose = append(toClose, m.destHandlers[len(forward):]...)\n\t}\n", "C39.reload.removed_closed"},
+		Mutant{"C39", "removed-tail-slice-of-new-list", "internal/forward/manager.go",
+			"\tfor i := len(forward); i < len(m.destHandlers); i++ {\n\t\ttoClose = append(toClose, m.destHandlers[i])\n\t}\n",
+			"\tif len(newHandlers) > len(forward) {\n\t\ttoClose = append(toClose, newHandlers[len(forward):]...)\n\t}\n", "C39.reload.removed_closed"},
 		Mutant{"C39", "reload-stops-installed-handlers", "internal/forward/manager.go",
 			"for _, handler := range toClose {", "for _, handler := range m.destHandlers {", "C39.reload.stop_only_queued"},
 		Mutant{"C39", "reload-stops-regardless-of-started", "internal/forward/manager.go",
@@ -329,12 +339,19 @@ func c39Reload(c *Ctx, p *Prog) {
 			okTail = true
 		}
 	})
-	c.Check("C39.reload.removed_closed", f+": every old handler at index >= len(forward) is queued for stop (loop from len(forward) to len(old), unconditional)", okTail, p.Pos(rc.Pos()), "")
+	// the same set queued as a slice: append(q, old[len(forward):]...) or a full range
+	// over old[len(forward):], on every path to the commit that may have a tail (prop_gen_c39.go)
+	tail := &c39Tail{rc: rc, fwd: fwd, isOld: isOld}
+	tailDetail := ""
+	if !okTail {
+		okTail, tailDetail = tail.tailQueuedBeforeCommit(p, commit)
+	}
+	c.Check("C39.reload.removed_closed", f+": every old handler at index >= len(forward) is queued for stop (loop from len(forward) to len(old), unconditional)", okTail, p.Pos(rc.Pos()), tailDetail)
 
 	// ---- exactly the queued handlers are stopped
 	var queue []*ssa.Call
 	eachInstr(rc, func(i ssa.Instruction) {
-		if closeAppend(i, nil) {
+		if closeAppend(i, nil) || tail.queuesOldHandlers(i) {
 			queue = append(queue, i.(*ssa.Call))
 		}
 	})
